@@ -220,6 +220,24 @@ def add_one_way_cycle(rng, table):
     return table
 
 
+def add_overlapping_cycles(rng, table, root=0):
+    """Hostile shape: one-way single-child rows forming a cycle through `root` plus chords
+    inside it (a short cycle and a longer one sharing labels), in random positions: whichever
+    cycle the detection merges first, the other closes through an absorbed label."""
+    rows, n = table["rows"], table["n"]
+    if n < 3:
+        return table
+    others = [x for x in range(n) if x != root]
+    labs = [root] + rng.sample(others, min(len(others), rng.randint(2, 3)))
+    edges = list(zip(labs, labs[1:] + labs[:1]))
+    for _ in range(rng.randint(1, 2)):
+        a, b = rng.sample(labs, 2)
+        edges.append((a, b))
+    for a, b in edges:
+        rows.insert(rng.randrange(len(rows) + 1), [a, [b], [0], False, rng.random() < 0.3])
+    return table
+
+
 def add_twin_unary_rows(rng, table, k=None):
     """Hostile shape for the rule databases: for k unary rows add a twin between the same
     two labels with the opposite two-way flag, in either orientation, at a random position
